@@ -186,7 +186,10 @@ EnumObject(D, en) ==
                 ELSE Go(i + 1, a1)
   IN Go(1, {})
 
-Exact(D) == \A i \in 1..Len(D) : \A k \in 1..Len(D[i].mem) : D[i].mem[k].val.t # "unk"
+(* exact: every value, and the reverse-mapping key of every number, is defined by this module (integers above 2^53 print in
+   shortest round-trip form, which JsFold does not define) *)
+Exact(D) == \A i \in 1..Len(D) : \A k \in 1..Len(D[i].mem) :
+              LET v == D[i].mem[k].val IN v.t # "unk" /\ (IsNumV(v) => ToStr(v).t # "unk")
 
 (* ------------------------------------------------------------ properties *)
 AllMembers == UNION {{<<i, k>> : k \in 1..Len(decls[i].mem)} : i \in 1..Len(decls)}
